@@ -72,6 +72,7 @@ def check_sets(world, pipe, res, balanced_consumers=()):
         edges = pipe.inputs_of(cons)
         if not edges:
             continue
+        n_out_before = len(out)
         sync_edges = [e for e in edges if not e['eph']]
         per_edge = defaultdict(dict)     # edge index -> {dst: (src topic, tok, candidate pubs)}
         ins = {t: k for t, k in ev['ins'].items()}
@@ -190,8 +191,11 @@ def check_sets(world, pipe, res, balanced_consumers=()):
         for e in sync_edges:
             for dst, (st, tok, pubs, _) in (per_edge.get(id(e)) or {}).items():
                 by_origin[tok['o']].add((tok['oi'], tok['seq']))
+        explained = any(m_ == 'set-mixes-publisher-incarnations' for m_, _ in out[n_out_before:])      # reported for THIS set
         for o, s in by_origin.items():
             if len(s) > 1 and not balanced:
+                if explained and len({oi for oi, _ in s}) == 1:
+                    continue        # the same set, already reported: a restarted relay re-used the id of the partial set its predecessor left
                 if len({oi for oi, _ in s}) > 1:
                     # the source itself was restarted and reuses message ids: frames of its old and new incarnation meet
                     out.append(('rejoin-mixes-source-incarnations', f'{cons}: rejoined set pairs frames of {o} from different incarnations of that source {sorted(s)} (same message id, reused after the source restarted): {brief(ins)}'))
